@@ -56,6 +56,8 @@ class CheckC06(core.Check):
         h.handshake(paylens, plan)
         h.convert()
         h.transport_phase(rnd, nmsgs=4, fault_rate=0.3, rekeys=True)
+        if rnd.random() < 0.3:
+            h.exhaustion_episode(rnd)
         h.done()
         c.info = {"name": name}
         return c
